@@ -12,15 +12,18 @@ From Coq Require Import List ZArith Bool Arith.
 From NDB Require Import Conc.Sched.
 Import ListNotations.
 
-Inductive hop := HOpen | HCommit (d : Z) | HCompact | HClose.
+(* HOffline: an offline tool (vacuum_in_place, BulkLoader::commit) run by this thread: it takes the
+   database lock, rewrites the files and releases the lock within one call *)
+Inductive hop := HOpen | HCommit (d : Z) | HCompact | HClose | HOffline.
 
-Inductive wop := WCommit (d : Z) | WCompact | WClose.
+Inductive wop := WCommit (d : Z) | WCompact | WClose | WOffline.
 
 Inductive hres :=
 | ROpenOk | ROpenRefused | RAlreadyOpen     (* results of HOpen *)
 | RWrote (w : wop)                          (* a write reached the files *)
 | RClosed
-| RNoHandle.                                (* operation on a handle that is not open *)
+| RNoHandle                                 (* operation on a handle that is not open *)
+| ROffline | ROfflineRefused.               (* offline tool ran / was refused because the database is open *)
 
 Record hshared := {
   lk : option nat;                               (* holder of the OS lock on the data file *)
@@ -51,6 +54,13 @@ Definition hsem (locking : bool) (o : hop) (t : nat) (sh : hshared) (opened : bo
       if opened then Some ({| lk := if locking then None else lk sh; files := files sh ++ [(t, lk sh, WClose)];
                               results := push sh t RClosed |}, false)
       else Some ({| lk := lk sh; files := files sh; results := push sh t RNoHandle |}, false)
+  | HOffline =>
+      if locking then
+        match lk sh with
+        | None => Some ({| lk := None; files := files sh ++ [(t, Some t, WOffline)]; results := push sh t ROffline |}, opened)
+        | Some _ => Some ({| lk := lk sh; files := files sh; results := push sh t ROfflineRefused |}, opened)
+        end
+      else Some ({| lk := lk sh; files := files sh ++ [(t, lk sh, WOffline)]; results := push sh t ROffline |}, opened)
   end.
 
 Definition hcfg := cfg hshared bool hop.
@@ -80,6 +90,10 @@ Fixpoint scan (l : list (nat * hres)) (cur : option nat) : option (option nat) :
       | ROpenRefused, Some h => if Nat.eqb h t then None else scan rest cur   (* refused only while another handle holds it *)
       | ROpenRefused, None => None
       | RNoHandle, _ => scan rest cur
+      | ROffline, None => scan rest cur               (* an offline tool runs only while no handle is open *)
+      | ROffline, Some _ => None
+      | ROfflineRefused, Some _ => scan rest cur
+      | ROfflineRefused, None => None
       end
   end.
 
